@@ -60,7 +60,14 @@ func (m StringifiedMessage) TagType() byte {
 func (m StringifiedMessage) MarshalNBT(w io.Writer) error {
 	d := decodeState{data: []byte(m)}
 	d.scan.reset()
-	return writeValue(NewEncoder(w), &d, false, "")
+	if err := writeValue(NewEncoder(w), &d, false, ""); err != nil {
+		return err
+	}
+	// Only space characters may follow the top-level value.
+	if d.scanWhile(scanEnd); d.opcode != scanEnd {
+		return d.error(d.scan.errContext)
+	}
+	return nil
 }
 
 func (m *StringifiedMessage) UnmarshalNBT(tagType byte, r DecoderReader) error {
